@@ -51,6 +51,8 @@ Off0 == {0}
 Off48 == {4, 8}
 OffOthers == (1..11) \ {4, 8}
 OffAll == 0..11
+OffLow == 0..5
+OffHigh == 6..11
 OffNone == {}
 
 VARIABLES ver, e, r1, r2, phase
